@@ -730,10 +730,21 @@ func (fr *frame) localNamedT(name string, at ssa.Instruction, st *State) (*Val, 
 			}
 		}
 		if wantReach {
-			if best.b == atBlock || best.b.Dominates(atBlock) {
+			// where the value was *defined* decides (go/ssa also records every later use of the variable: a use inside a
+			// branch must not turn "defined on this path" into "that branch was taken")
+			db := best.b
+			switch dv := best.v.(type) {
+			case ssa.Instruction:
+				if dv.Block() != nil && dv.Parent() == fr.fn {
+					db = dv.Block()
+				}
+			case *ssa.Parameter, *ssa.Const, *ssa.Global, *ssa.FreeVar:
 				return &Val{t: "true"}, types.Typ[types.Bool]
 			}
-			if r, ok := fr.reach[best.b.Index]; ok && r != "" {
+			if db == atBlock || db.Dominates(atBlock) {
+				return &Val{t: "true"}, types.Typ[types.Bool]
+			}
+			if r, ok := fr.reach[db.Index]; ok && r != "" {
 				return &Val{t: r}, types.Typ[types.Bool]
 			}
 			return nil, nil
